@@ -51,10 +51,6 @@ SEEDS = [
   {'C10': 'UNDECIDED (exit 2): the mutation restructures the `let res = loop { break .. }` shape the loop contract is attached to (lost anchor); NOT detected'}),
  ('C10-2', '/tmp/wt_C10/_out/2', 'C10', 'a slow but successful check in a block >= 1 (clock read only after a non-matching query)',
   {'C10': 'NOT detected (exit 0): wall-clock time is an uninterpreted input of the contracts (listed under not_covered); patch no longer applies after fix 09cf9d5'}),
- ('C19-1', '/tmp/wt_C19/_out/1', 'C19', 'biscuit_sealed_size computed by arithmetic (+32) while the last block was appended with a secp256r1 key (70-72 byte DER seal)',
-  {'C19': 'UNDECIDED (exit 2): the new body calls Rust API functions that are not among the stubs of unit capi (front-end rejection); NOT detected'}),
- ('C19-2', '/tmp/wt_C19/_out/2', 'C19', 'biscuit_block_context(block_index == block_count): swap_remove panics inside the extern "C" function',
-  {'C19': 'VIOLATION biscuit-capi::lib::biscuit_block_context::call-pre(vstd vec)[biscuit.0.context().swap_remove(block_index)]', 'history': 'first run NOT detected (function not under contract); caught after biscuit_block_context was added to unit capi'}),
  ('C04-1', '/tmp/wt_C04/_out/1', 'C04', 'a `check all` whose body matches nothing in its scoped world (check_match_all returns true vacuously)',
   {'C04': 'UNDECIDED (exit 2): the change removes the local `found` that the loop invariant of Rule::check_match_all names; the same defect written in place (`Ok(found)` -> `Ok(true)`) is a canary of unit engine and is rejected by check_match_all::ensures.decision', 'history': 'first run NOT detected (exit 0, check_match_all was inside the engine oracle); unit engine now puts find_match / check_match_all / query_match* under contract'}),
  ('C04-2', '/tmp/wt_C04/_out/2', 'C04', 'an authorizer-level scope (AuthorizerBuilder::scope) and a policy without its own `trusting` annotation',
